@@ -630,6 +630,9 @@ func c13Fields(r *rng, id string) {
 // (f) silent peers: a stream that delivers a prefix of a genuine message - nothing at all, part of the
 // label header, part of the body - and then stays open without sending more. The handler must give
 // up at the stream timeout; it must not park for ever.
+// c13StallProp: the silent-peer leg also runs under C20 (a handler must not outlive Shutdown by more than its stream timeout).
+var c13StallProp = "C13"
+
 func c13Stall(r *rng, id string) {
 	c, enc := randCcfg(r)
 	snd, err := newCnode(c)
@@ -684,7 +687,7 @@ func c13Stall(r *rng, id string) {
 	if len(bads) > 0 {
 		bs = strings.Join(bads, ",")
 	}
-	emit("C13 stall id=%s label=%d enc=%s n=%d bad=%s", id, len(c.label), enc, total, bs)
+	emit(c13StallProp+" stall id=%s label=%d enc=%s n=%d bad=%s", id, len(c.label), enc, total, bs)
 }
 
 // c13Nacks: a replayed (or hostile) burst of nack messages carrying the sequence number of a probe that is
